@@ -5,7 +5,7 @@ CONSTANTS
   MaxDelay = 2
   Horizon = 40
   InheritEarliestDue = FALSE
-  WidenIndividual = TRUE
+  WidenIndividual = FALSE
   MergeOnStart = FALSE
-INVARIANTS Covered Deadline
+INVARIANTS Covered Deadline TwoCycles
 CHECK_DEADLOCK FALSE
